@@ -197,17 +197,21 @@ theorem StrictTotal.asymm {eq lt : α → α → Bool} (h : StrictTotal eq lt) :
   | false => rfl
   | true => have := h.trans x y x hxy hyx; rw [h.irrefl] at this; cases this
 
-/-- the equality fold of tuple `operator==` decides element-wise equality -/
+/-- the equality fold of tuple `operator==` never fails on tuples of equal arity and decides element-wise equality -/
 theorem eqFold_iff {eq : α → α → Bool} (heq : ∀ x y, eq x y = true ↔ x = y) :
-    ∀ (a b : List α), a.length = b.length → (eqFold eq a b = true ↔ a = b)
-  | [], [], _ => by simp [eqFold]
+    ∀ (a b : List α), a.length = b.length → ∃ r, eqFold eq a b = .ok r ∧ (r = true ↔ a = b)
+  | [], [], _ => ⟨true, rfl, by simp⟩
   | x :: xs, y :: ys, h => by
-    have ih := eqFold_iff heq xs ys (by simpa using h)
-    simp [eqFold, heq, ih]
+    obtain ⟨r, hr, ih⟩ := eqFold_iff heq xs ys (by simpa using h)
+    refine ⟨eq x y && r, by simp [eqFold, hr, bind, Except.bind], ?_⟩
+    simp [heq, ih]
   | [], _ :: _, h => by simp at h
   | _ :: _, [], h => by simp at h
 
 end rel
+
+theorem tri_facts (x y : Int) :
+    (x < y ∧ ¬ y < x ∧ ¬ x = y ∧ ¬ y = x) ∨ (x = y) ∨ (y < x ∧ ¬ x < y ∧ ¬ x = y ∧ ¬ y = x) := by omega
 
 theorem concat_eq (t1 t2 : List Int) : concat t1 t2 = .ok (t1 ++ t2) := by
   simp [concat, getAll_ok, bind, Except.bind]
@@ -217,5 +221,88 @@ theorem catGo_eq : ∀ (ts : List (List Int)) (r : List Int), catGo r ts = .ok (
   | t :: ts, r => by
     simp [catGo, concat_eq, bind, Except.bind, catGo_eq ts (r ++ t), List.append_assoc]
 
+/-! ### calls
+
+The model of each forwarding wrapper equals the executable spec that the harness validates against libstdc++.
+For these wrappers the header's code and the standard's definition are the same few lines, so these are
+transcription checks (a case split on the callee kind and `rfl`, plus "the checked element reads of the bound /
+applied tuple succeed").  They are helper lemmas and are NOT counted as property theorems; the property theorems
+(`Props.*_once`) are stated against the predicate `Spec.CalledOnce`. -/
+
+theorem objExpr_eq (o : ObjK) : Spec.objExpr o = o.expr := by
+  cases o with
+  | obj q => rfl
+  | refw q => cases q <;> rfl
+  | ptr q => cases q <;> rfl
+
+theorem arrives_eq (a : Arg) : Spec.arrives a = paramArrives a := by
+  obtain ⟨v, x⟩ := a; cases v <;> rfl
+
+theorem theCall_eq (tid : Nat) (self : Option Cat) (args : List Arg) : Spec.theCall tid self args = callTarget tid self args := rfl
+
+theorem invoke_spec (f : Callee) (args : List Arg) (h : ∀ o v, f = .memdata o v → args = []) :
+    invoke f args = .ok (Spec.invoke f args) := by
+  cases f with
+  | fn tid => rfl
+  | fob tid q => rfl
+  | memfn tid o => simp [invoke, Spec.invoke, objExpr_eq, theCall_eq]
+  | memdata o v => simp [invoke, Spec.invoke, h o v rfl]
+
+theorem refWrap_spec (tid : Nat) (cst : Bool) (args : List Arg) :
+    refWrapCall tid cst args = .ok (Spec.refWrapCall tid cst args) := rfl
+
+theorem functionRef_spec (callee : Callee) (args : List Arg) (h : ∀ o v, callee = .memdata o v → args = []) :
+    functionRefCall callee args = .ok (Spec.functionRefCall callee args) := by
+  have hm : args.map Spec.arrives = args.map paramArrives := by
+    apply List.map_congr_left; intro a _; exact arrives_eq a
+  cases callee with
+  | fn tid => simp [functionRefCall, Spec.functionRefCall, Spec.frefTarget?, Spec.target?, invoke, hm, theCall_eq]
+  | fob tid q => cases q <;> simp [functionRefCall, Spec.functionRefCall, Spec.frefTarget?, invoke, hm, theCall_eq, Cat.asLvalue]
+  | memfn tid o => simp [functionRefCall, Spec.functionRefCall, Spec.frefTarget?, Spec.target?, invoke, hm, theCall_eq, objExpr_eq]
+  | memdata o v =>
+    have := h o v rfl
+    subst this
+    simp [functionRefCall, Spec.functionRefCall, invoke]
+
+theorem bound_arrives (q : Cat) (bound : List Bound) :
+    (bound.zip (bound.map (·.value))).map (fun p => p.1.arrives q p.2) = bound.map (Spec.boundArrives q) := by
+  induction bound with
+  | nil => rfl
+  | cons b bs ih =>
+    simp only [List.map_cons, List.zip_cons_cons, ih]
+    cases b <;> rfl
+
+theorem bindFront_spec (mk : Cat → Callee) (q : Cat) (bound : List Bound) (args : List Arg)
+    (h : ∀ o v, mk q ≠ .memdata o v) :
+    bindFrontCall mk q bound args = .ok (Spec.bindFrontCall mk q bound args) := by
+  have hi := invoke_spec (mk q) (bound.map (Spec.boundArrives q) ++ args) (fun o v he => absurd he (h o v))
+  simp only [bindFrontCall, getAll_ok, bind, Except.bind, bound_arrives, hi, Spec.bindFrontCall]
+
+theorem notFn_spec (tid : Nat) (q : Cat) (pred : Bool) (args : List Arg) :
+    notFnCall tid q pred args = .ok (Spec.notFnCall tid q pred args) := rfl
+
+theorem apply_spec (f : Callee) (tc : Cat) (t : List Int) (h : ∀ o v, f ≠ .memdata o v) :
+    apply f tc t = .ok (Spec.apply f tc t) := by
+  have hi := invoke_spec f (t.map (boundArg tc)) (fun o v he => absurd he (h o v))
+  simp only [apply, getAll_ok, bind, Except.bind, hi, Spec.apply]
+  rfl
+
+/-- one call of one target satisfies the property's predicate -/
+theorem calledOnce_theCall (tid : Nat) (self : Option Cat) (args : List Arg) :
+    Spec.CalledOnce tid self args (resultOf tid (args.map (·.2))) (Spec.theCall tid self args) :=
+  ⟨rfl, by intro c hc; simp [Spec.theCall] at hc; subst hc; exact ⟨rfl, rfl, rfl⟩, rfl⟩
+
+theorem target_not_memdata {f : Callee} {tid : Nat} {self : Option Cat} (ht : Spec.target? f = some (tid, self)) :
+    ∀ o v, f ≠ .memdata o v := by
+  intro o v h; subst h; simp [Spec.target?] at ht
+
+/-- whenever `INVOKE` has a target, the prescribed outcome is that one call -/
+theorem spec_invoke_target {f : Callee} {tid : Nat} {self : Option Cat} (ht : Spec.target? f = some (tid, self))
+    (args : List Arg) : Spec.invoke f args = Spec.theCall tid self args := by
+  cases f with
+  | fn t => simp [Spec.target?] at ht; obtain ⟨rfl, rfl⟩ := ht; rfl
+  | fob t q => simp [Spec.target?] at ht; obtain ⟨rfl, rfl⟩ := ht; rfl
+  | memfn t o => simp [Spec.target?] at ht; obtain ⟨rfl, rfl⟩ := ht; rfl
+  | memdata o v => simp [Spec.target?] at ht
 
 end Tetl.C20
